@@ -330,6 +330,7 @@ func runC09(c *an.Ctx) {
 			return want
 		},
 	})
+	c09GetOrCreate(c, "C09-R2", bo+"incBackoff", bo+"hasHitRateLimit")
 	decide(c, "C09-R2", bo+"subnetKey", an.DecideCfg{
 		Dom: an.Domain{"is4": an.Bools, "preferr": an.Bools},
 		OnCall: func(it *an.Interp, name string, args []an.AV) (an.AV, bool) {
@@ -618,4 +619,61 @@ func c09AllowlistWiring(c *an.Ctx) {
 	c.Check(fromConf && an.IsNilConst(args[1]), "C09-R9", k+" static allowlist", calls[0].Pos(),
 		"the configured subnets form the persistent part of the allowlist; the dynamic part starts empty",
 		"the configured allowlist is not passed as the persistent part (or the dynamic part is pre-filled): the first refresh replaces the operator's entries and allowlisted clients are rate limited")
+}
+
+// c09GetOrCreate checks the get-or-create idiom on the expiring tables of the
+// backoff limiter: an entry that was found is never inserted again (go-cache's
+// Set/SetDefault restart the entry's expiry, so re-inserting the hit counter on
+// every hit keeps a client in backoff for as long as it keeps sending, and
+// re-inserting the window counter would keep it past its period), and a
+// missing entry is inserted.
+func c09GetOrCreate(c *an.Ctx, rule string, fnNames ...string) {
+	for _, name := range fnNames {
+		fn := c.Fn(name)
+		if fn == nil {
+			c.Und(rule, name+" get-or-create", token.NoPos, "anchor not found")
+			continue
+		}
+		c.Analysed(name)
+		var gets []*ssa.Call
+		for _, call := range an.Calls(fn) {
+			if cl, ok := call.(*ssa.Call); ok && strings.HasSuffix(an.CalleeName(call), "go-cache.cache).Get") {
+				gets = append(gets, cl)
+			}
+		}
+		if len(gets) != 1 {
+			c.Und(rule, name+" get-or-create", fn.Pos(), "expected one table lookup, found %d", len(gets))
+			continue
+		}
+		get := gets[0]
+		table, _ := an.AccessPath(get.Call.Args[0])
+		inserts := 0
+		for _, call := range an.Calls(fn) {
+			n := an.CalleeName(call)
+			if !(strings.HasSuffix(n, "go-cache.cache).Set") || strings.HasSuffix(n, "go-cache.cache).SetDefault") || strings.HasSuffix(n, "go-cache.cache).Add") || strings.HasSuffix(n, "go-cache.cache).Replace")) {
+				continue
+			}
+			if t, _ := an.AccessPath(call.Common().Args[0]); t != table {
+				continue
+			}
+			inserts++
+			onMiss := false
+			for _, e := range an.DominatingConds(call.Block()) {
+				cond := e.If.Cond
+				branch := e.Branch
+				if u, ok := cond.(*ssa.UnOp); ok && u.Op == token.NOT {
+					cond, branch = u.X, !branch
+				}
+				if ex, ok := cond.(*ssa.Extract); ok && ex.Tuple == ssa.Value(get) && ex.Index == 1 && !branch {
+					onMiss = true
+				}
+			}
+			c.Check(onMiss, rule, name+" inserts into "+table+" only when the entry is missing", call.Pos(),
+				"the table entry is inserted only on the lookup's miss edge",
+				"the entry is (re-)inserted into "+table+" also when it was found: the insertion restarts its expiry")
+		}
+		if inserts == 0 {
+			c.Bad(rule, name+" inserts into "+table+" only when the entry is missing", fn.Pos(), "a missing entry is never inserted into "+table)
+		}
+	}
 }
